@@ -533,7 +533,7 @@ class PX:
         model = self.model_for("with:" + text)
         val = Sym(f"with:{text}#{self._count('with:' + text)}")
         if model is not None:
-            val = self.apply_model(model, "with:" + text, list(args), kwargs, fr, st, awaited=is_async, kind="enter")
+            val = self.apply_model(model, text, list(args), kwargs, fr, st, awaited=is_async, kind="enter")
         else:
             if is_async:
                 self.epoch += 1
@@ -1200,6 +1200,10 @@ class PX:
 
     def do_await(self, text, v, fr, node):
         model = self.model_for("await:" + text)
+        if model is None and isinstance(v, (Sym, Obj)) and v.tag != text:
+            model = self.model_for("await:" + v.tag)  # match on the awaited value, whatever the local is called
+            if model is not None:
+                text = v.tag
         if model is not None:
             r = self.apply_model(model, text, [v], {}, fr, node, awaited=True, kind="await")
             self.epoch += 1
@@ -1257,6 +1261,10 @@ class PX:
 
     def do_call(self, fval, text, args, kw, fr, node, awaited):
         model = self.model_for(text)
+        if model is None and isinstance(fval, Sym) and fval.tag != text:
+            model = self.model_for(fval.tag)  # alias-independent: match on the callee's value tag
+            if model is not None:
+                text = fval.tag
         if model is not None:
             self._callee = _short(fval) if isinstance(fval, Sym) else None
             r = self.apply_model(model, text, args, kw, fr, node, awaited)
